@@ -18,7 +18,11 @@ type vfC14Item struct {
 	H     int    // handle index
 	Len   int    `json:",omitempty"`
 	Off   int    `json:",omitempty"` // READ offset
+	Fail  bool   `json:",omitempty"` // request server: the handler's ReadAt/WriteAt for this request fails (seed C14-c)
 }
+
+// offsets from here on fail in the handler: far beyond anything the pipelines read or write
+const vfC14Poison = 1 << 22
 
 type vfCaseC14 struct {
 	Srv     vfSrvCfg
@@ -46,6 +50,9 @@ func vfGenC14(t *rapid.T) vfCaseC14 {
 		if c.Kinds[h] == "R" {
 			it.Len = rapid.SampledFrom([]int{1, 10, 100, 300}).Draw(t, "rlen")
 			it.Off = rapid.IntRange(0, 300-it.Len).Draw(t, "roff")
+		}
+		if c.Srv.Kind == "rs" && rapid.IntRange(0, 7).Draw(t, "iofail") == 0 {
+			it.Fail = true
 		}
 		c.Burst = append(c.Burst, it)
 	}
@@ -124,6 +131,7 @@ func vfRunC14(ctx *vfCtx, c vfCaseC14) {
 		ps.srv.h.mu.Lock()
 		ps.srv.h.parkKinds["ReadAt"] = true
 		ps.srv.h.parkKinds["WriteAt"] = true
+		ps.srv.h.ioFailFrom = vfC14Poison
 		ps.srv.h.mu.Unlock()
 	}
 	// the burst
@@ -141,6 +149,10 @@ func vfRunC14(ctx *vfCtx, c vfCaseC14) {
 		case it.Close:
 			p = &vfPkt{Type: vfFxpClose, ID: ps.id(), Handle: []byte(handleOf[it.H])}
 			sawClose = true
+		case it.Fail && ps.srv.h != nil && c.Kinds[it.H] == "R":
+			p = &vfPkt{Type: vfFxpRead, ID: ps.id(), Handle: []byte(handleOf[it.H]), Offset: vfC14Poison + uint64(it.Off), Len: uint32(it.Len)}
+		case it.Fail && ps.srv.h != nil:
+			p = &vfPkt{Type: vfFxpWrite, ID: ps.id(), Handle: []byte(handleOf[it.H]), Offset: vfC14Poison, Data: vfPRFBytes(7, 0, c.WLen)}
 		case c.Kinds[it.H] == "R":
 			p = &vfPkt{Type: vfFxpRead, ID: ps.id(), Handle: []byte(handleOf[it.H]), Offset: uint64(it.Off), Len: uint32(it.Len)}
 		default:
@@ -205,6 +217,14 @@ func vfRunC14(ctx *vfCtx, c vfCaseC14) {
 	pk, _, _, _ := ps.srv.Replies()
 	for i := firstBurst; i < firstBurst+len(c.Burst); i++ {
 		req, rep := ps.reqs[i], pk[i]
+		if it := c.Burst[i-firstBurst]; it.Fail && ps.srv.h != nil && !it.Close && it.Cmd == nil {
+			// the injected handler failure is this request's own answer and nobody else's business
+			if rep.Type != vfFxpStatus || rep.Code == vfFxOK || rep.Code == vfFxEOF {
+				ctx.Failf("C14/fault-not-reported/"+kind, "request #%d, whose handler call failed, was answered %s", i, vfPktString(rep))
+			}
+			ctx.Class("handler-io-fault")
+			continue
+		}
 		switch req.Type {
 		case vfFxpRead:
 			want := vfPRFBytes(1, int(req.Offset), int(req.Len))
@@ -245,8 +265,8 @@ func vfRunC14(ctx *vfCtx, c vfCaseC14) {
 			continue
 		}
 		o.mu.Lock()
-		bad := o.closeWhileBusy || o.afterClose > 0
-		desc := fmt.Sprintf("object #%d (%s): closeWhileBusy=%v callsAfterClose=%d", o.id, o.kind, o.closeWhileBusy, o.afterClose)
+		bad := o.closeWhileBusy || o.afterClose > 0 || o.closes > 1
+		desc := fmt.Sprintf("object #%d (%s): closeWhileBusy=%v callsAfterClose=%d closes=%d", o.id, o.kind, o.closeWhileBusy, o.afterClose, o.closes)
 		o.mu.Unlock()
 		if bad {
 			ctx.Failf("C14/io-overlaps-close/"+kind, "%s\nevents: %s", desc, strings.Join(ps.srv.h.logCopy(), "; "))
